@@ -348,8 +348,30 @@ class TracebackInfo:
         :func:`traceback.format_stack`.
         """
         ret = 'Traceback (most recent call last):\n'
-        ret += ''.join([f.tb_frame_str() for f in self.frames])
+        # like the traceback module, show a run of identical entries
+        # (recursion) three times and summarize the rest
+        last_key, count = None, 0
+        for f in self.frames:
+            key = (f.module_path, f.lineno, f.func_name)
+            if key != last_key:
+                ret += _repeated_str(count)
+                last_key, count = key, 0
+            count += 1
+            if count <= _RECURSIVE_CUTOFF:
+                ret += f.tb_frame_str()
+        ret += _repeated_str(count)
         return ret
+
+
+_RECURSIVE_CUTOFF = 3  # same as the traceback module
+
+
+def _repeated_str(count):
+    count -= _RECURSIVE_CUTOFF
+    if count <= 0:
+        return ''
+    return '  [Previous line repeated {} more time{}]\n'.format(
+        count, 's' if count > 1 else '')
 
 
 class ExceptionInfo:
